@@ -137,10 +137,10 @@ impl<'a> Gen<'a> {
         if self.cfg.tags {
             self.tag += 1;
             let t = self.tag;
-            let extra = *self.rng.pick(&["", "", "'", "?", "$1", "\\", "\"", "é", "\r\n", "\u{8}", "%", "_"]);
+            let extra = *self.rng.pick(&["", "", "'", "?", "$1", "\\", "\"", "é", "\r\n", "\u{8}", "%", "_", "\u{1a}", "\t"]);
             X::Text(format!("v{t}{extra}"))
         } else {
-            X::Text(self.rng.pick(&["x", "y", "", "p", "q", "abc", "Zed", "a%c", "it's"]).to_string())
+            X::Text(self.rng.pick(&["x", "y", "", "p", "q", "abc", "Zed", "a%c", "it's", "s\u{1a}b"]).to_string())
         }
     }
 
